@@ -12,6 +12,7 @@ import (
 	"math/rand"
 	"os"
 	"path/filepath"
+	"sort"
 	"strings"
 	"testing"
 	"time"
@@ -526,8 +527,14 @@ func vC04CaseProofHist(out *vC04Out, r *rand.Rand, plan *vC04PHPlan) {
 	setTTLs := []uint32{15, 60, 300, 3600, 86400}
 	build := func(which int) (*dns.Msg, string) {
 		denied, owner, next := "c."+zone, "a."+zone, "m."+zone
-		if which == 1 {
+		if which >= 1 {
 			denied, owner, next = "p."+zone, "m."+zone, "z."+zone
+		}
+		if which == 2 {
+			// proof C: x.m.<zone> does not exist below the existing name m: the one NSEC m->z covers
+			// the name and the wildcard *.m — an admission that refreshes the zone's SOA entry
+			// WITHOUT carrying the apex set the other proofs need
+			denied = "x.m." + zone
 		}
 		exp := func() int64 {
 			if r.Intn(5) == 0 {
@@ -563,6 +570,9 @@ func vC04CaseProofHist(out *vC04Out, r *rand.Rand, plan *vC04PHPlan) {
 			&dns.NSEC{Hdr: dns.RR_Header{Name: zone, Rrtype: dns.TypeNSEC, Class: dns.ClassINET, Ttl: t0}, NextDomain: "a." + zone, TypeBitMap: []uint16{dns.TypeNS, dns.TypeSOA, dns.TypeRRSIG, dns.TypeNSEC, dns.TypeDNSKEY}},
 			sig(zone, dns.TypeNSEC, t0),
 		}
+		if which == 2 {
+			m.Ns = m.Ns[:4]
+		}
 		return m, owner
 	}
 	var steps, desc []string
@@ -596,7 +606,7 @@ func vC04CaseProofHist(out *vC04Out, r *rand.Rand, plan *vC04PHPlan) {
 		return now.UnixNano() + life
 	}
 	admit := func() {
-		which := r.Intn(2)
+		which := []int{0, 1, 2, 2}[r.Intn(4)]
 		if pop != nil {
 			which = pop.Which
 		}
@@ -604,6 +614,10 @@ func vC04CaseProofHist(out *vC04Out, r *rand.Rand, plan *vC04PHPlan) {
 		var cut time.Time
 		if r.Intn(4) == 0 {
 			cut = cur.Add(time.Duration(5+r.Intn(300)) * time.Second)
+		}
+		if which == 2 && r.Intn(2) == 0 {
+			// the admission that refreshes only the SOA entry often comes through a short lease
+			cut = cur.Add(time.Duration(3+r.Intn(40)) * time.Second)
 		}
 		if pop != nil {
 			cut = time.Time{}
@@ -613,25 +627,35 @@ func vC04CaseProofHist(out *vC04Out, r *rand.Rand, plan *vC04PHPlan) {
 		}
 		ok := cache.recordWithKind(m, zone, denialProofNSEC, cut)
 		common := m.Ns[0:2]
-		set1, set0 := m.Ns[2:4], m.Ns[4:6]
-		steps = append(steps, fmt.Sprintf("PAdm %d %s %s [mk_pset %d %s; mk_pset 0 %s] %v", cur.UnixNano(), vC04OZ(!cut.IsZero(), cut.UnixNano()),
-			vC04PRRs(common), ownerID[owner], vC04PRRs(set1), vC04PRRs(set0), ok))
-		desc = append(desc, fmt.Sprintf("t0+%v admit proof %c soa=%d/%d sets=%d/%d cut=%v -> %v", cur.Sub(base), 'A'+rune(which),
-			m.Ns[0].Header().Ttl, m.Ns[0].(*dns.SOA).Minttl, set1[0].Header().Ttl, set0[0].Header().Ttl, !cut.IsZero(), ok))
+		set1 := m.Ns[2:4]
+		psets := fmt.Sprintf("mk_pset %d %s", ownerID[owner], vC04PRRs(set1))
+		t0s := "-"
+		if which != 2 {
+			psets += fmt.Sprintf("; mk_pset 0 %s", vC04PRRs(m.Ns[4:6]))
+			t0s = fmt.Sprint(m.Ns[4].Header().Ttl)
+		}
+		steps = append(steps, fmt.Sprintf("PAdm %d %s %s [%s] %v", cur.UnixNano(), vC04OZ(!cut.IsZero(), cut.UnixNano()), vC04PRRs(common), psets, ok))
+		desc = append(desc, fmt.Sprintf("t0+%v admit proof %c soa=%d/%d sets=%d/%s cut=%v -> %v", cur.Sub(base), 'A'+rune(which),
+			m.Ns[0].Header().Ttl, m.Ns[0].(*dns.SOA).Minttl, set1[0].Header().Ttl, t0s, !cut.IsZero(), ok))
 		if ok {
 			soaEnd = plainEnd(cur, cut, common)
 			endOf[ownerID[owner]] = plainEnd(cur, cut, append(append([]dns.RR{}, common...), set1...))
-			endOf[0] = plainEnd(cur, cut, append(append([]dns.RR{}, common...), set0...))
+			if which != 2 {
+				endOf[0] = plainEnd(cur, cut, append(append([]dns.RR{}, common...), m.Ns[4:6]...))
+			}
 		}
 	}
 	lookup := func() {
-		which := r.Intn(2)
+		which := r.Intn(3)
 		if pop != nil {
 			which = pop.Which
 		}
 		qname, needed := "C."+zone, []int{1, 0}
 		if which == 1 {
 			qname, needed = "p."+zone, []int{2, 0}
+		}
+		if which == 2 {
+			qname, needed = "X.m."+zone, []int{2}
 		}
 		req := new(dns.Msg)
 		req.SetQuestion(qname, dns.TypeA)
@@ -653,11 +677,21 @@ func vC04CaseProofHist(out *vC04Out, r *rand.Rand, plan *vC04PHPlan) {
 					owners = append(owners, ownerID[strings.ToLower(rr.Header().Name)])
 				}
 			}
-			if len(owners) != 2 || !((owners[0] == needed[0] && owners[1] == needed[1]) || (owners[0] == needed[1] && owners[1] == needed[0])) {
+			sort.Ints(owners)
+			want := append([]int{}, needed...)
+			sort.Ints(want)
+			if fmt.Sprint(owners) != fmt.Sprint(want) {
 				fail = fmt.Sprintf("unexpected proof shape for %s: NSEC owners %v", qname, owners)
 			}
 			nowNs := cur.UnixNano()
-			for _, e := range []int64{soaEnd, endOf[needed[0]], endOf[needed[1]]} {
+			if expires.UnixNano() > soaEnd {
+				fail = fmt.Sprintf("the expiry handed to the request tree is %v after the end of the SOA piece of the answer", time.Duration(expires.UnixNano()-soaEnd))
+			}
+			ends := []int64{soaEnd}
+			for _, o := range needed {
+				ends = append(ends, endOf[o])
+			}
+			for _, e := range ends {
 				if nowNs >= e {
 					fail = fmt.Sprintf("%s denied %v after the end of the admission one of its pieces arrived in", qname, time.Duration(nowNs-e))
 				} else if ttl*int64(time.Second) > e-nowNs {
@@ -665,7 +699,11 @@ func vC04CaseProofHist(out *vC04Out, r *rand.Rand, plan *vC04PHPlan) {
 				}
 			}
 		}
-		steps = append(steps, fmt.Sprintf("PLook %d [%d; %d]%%N %s %s", cur.UnixNano(), needed[0], needed[1], vC04Z(ttl), eo))
+		var ns []string
+		for _, o := range needed {
+			ns = append(ns, fmt.Sprint(o))
+		}
+		steps = append(steps, fmt.Sprintf("PLook %d [%s]%%N %s %s", cur.UnixNano(), strings.Join(ns, "; "), vC04Z(ttl), eo))
 		desc = append(desc, fmt.Sprintf("t0+%v lookup %s -> served=%v ttl=%d", cur.Sub(base), qname, ok, ttl))
 	}
 	step := func() {
